@@ -42,7 +42,7 @@ ASSUMPTIONS = ['handlers do not raise (exceptions thrown by third-party handlers
                'sampling, not proof: schedules up to the stated length and re-entrancy depth 3']
 PROBES = ['nested_delay_flush', 'death_while_queued', 'unsub_during_dispatch', 'exception_exit_nonempty_queue',
           'handler_delay_during_flush', 'ignored_dropped', 'filter_rejected', 'most_specific_shadowing',
-          'owner_death_removes_sub', 'reentrant_broadcast', 'ignored_at_flush', 'listener_death']
+          'owner_death_removes_sub', 'reentrant_broadcast', 'listener_death']
 
 CLASSES = ['M0', 'M1', 'M2', 'N']
 PARENTS = {'M0': ['M0'], 'M1': ['M1', 'M0'], 'M2': ['M2', 'M1', 'M0'], 'N': ['N', 'M0']}
